@@ -697,6 +697,103 @@ fn lz_case(rng: &mut Rng, id: &str, g: &str, lang: &str, payloads: &[Vec<u8>]) -
     l
 }
 
+/// Motif "query; query again; mutate under it; the very same query again" on one filesystem instance
+/// (any cache or memo keyed by call arguments is exposed): list / subdirectories / exists / file_exists /
+/// directory_exists / resolve / read of (path, pattern, localized) -> write or create_dir below it, localized
+/// and unlocalized and through the already-localised spelling, or a write in another directory -> same query.
+/// `qv` selects how the query addresses the directory: 0 = (d, localized), 1 = (localised spelling of d,
+/// unlocalized), 2 = (d, unlocalized).
+fn motif_case(rng: &mut Rng, id: &str, g: &str, lang: &str, d: &str, qv: usize, full: bool) -> Vec<String> {
+    let (s0, arch) = base_payloads(rng);
+    let lz = |p: &str| localized(g, lang, p);
+    let mut low = vec![(format!("{}/old.txt", d), Ent::File(2)), (format!("{}/sub/deep.txt", d), Ent::File(1))];
+    if let Some(q) = lz(&format!("{}/oldl.txt", d)) {
+        low.push((q, Ent::File(1)));
+    }
+    if let Some(q) = lz(d) {
+        low.push((format!("{}/inl.txt", q.trim_end_matches('/')), Ent::File(2)));
+    }
+    let trees = vec![build_tree(&low), build_tree(&[("other".to_string(), Ent::Dir)])];
+    let mut l = vec![new_line(id, g, lang, &s0, &arch, &trees)];
+    let addr = |p: &str| -> (String, &'static str) {
+        match qv {
+            0 => (p.to_string(), "1"),
+            1 => (lz(p).unwrap_or_else(|| p.to_string()), "0"),
+            _ => (p.to_string(), "0"),
+        }
+    };
+    let mut k = 0;
+    let mut fresh = |stem: &str| {
+        k += 1;
+        format!("{}{}", stem, k)
+    };
+    // mutations below `d` (or elsewhere), each on a fresh name
+    let mutation = |kind: usize, name: &str| -> String {
+        let f = format!("{}/{}.txt", d, name);
+        let dir = format!("{}/{}", d, name);
+        match kind {
+            0 => format!("write {} p2 1", hexs(&f)),
+            1 => format!("write {} p2 0", hexs(&f)),
+            2 => format!("write {} p2 0", hexs(&lz(&f).unwrap_or(f.clone()))),
+            3 => format!("create_dir {} 1", hexs(&dir)),
+            4 => format!("create_dir {} 0", hexs(&dir)),
+            5 => format!("create_dir {} 0", hexs(&lz(&dir).unwrap_or(dir.clone()))),
+            _ => format!("write {} p1 1", hexs(&format!("other/{}.txt", name))),
+        }
+    };
+    let (qd, ql) = addr(d);
+    let rot = rng.below(3) as usize;
+    for (pi, pat) in ["~", "*", "**/*.txt"].iter().enumerate() {
+        let ph = if *pat == "~" { "~".to_string() } else { hexs(pat) };
+        for kind in 0..7 {
+            // quick: every mutation kind once, the pattern rotating; the localized write with every pattern
+            if !full && kind != 0 && (kind + rot) % 3 != pi {
+                continue;
+            }
+            let q = format!("{} list {} {} {}", id, hexs(&qd), ph, ql);
+            l.push(q.clone());
+            l.push(q.clone());
+            l.push(format!("{} {}", id, mutation(kind, &fresh("B"))));
+            l.push(q);
+        }
+    }
+    for kind in 0..7 {
+        let q = format!("{} subdirs {} {}", id, hexs(&qd), ql);
+        l.push(q.clone());
+        l.push(q.clone());
+        l.push(format!("{} {}", id, mutation(kind, &fresh("S"))));
+        l.push(q);
+    }
+    // point queries on a path that does not exist yet; the mutation creates it
+    for (qop, make_dir) in [("exists", false), ("file_exists", false), ("directory_exists", true), ("resolve", false), ("resolve", true), ("read", false)] {
+        for mloc in ["1", "0"] {
+            let name = fresh("P");
+            let p = if make_dir { format!("{}/{}", d, name) } else { format!("{}/{}.txt", d, name) };
+            let (qp, qloc) = addr(&p);
+            let q = format!("{} {} {} {}", id, qop, hexs(&qp), qloc);
+            l.push(q.clone());
+            l.push(q.clone());
+            // the mutation addresses the same location as the query
+            let target = if mloc == "1" { p.clone() } else if qv == 2 { p.clone() } else { lz(&p).unwrap_or(p.clone()) };
+            let target_loc = if qv == 2 { "0" } else { mloc };
+            if make_dir {
+                l.push(format!("{} create_dir {} {}", id, hexs(&target), target_loc));
+            } else {
+                l.push(format!("{} write {} p2 {}", id, hexs(&target), target_loc));
+            }
+            l.push(q.clone());
+            if qop == "read" {
+                // replace the content (longer, then shorter) and read again
+                l.push(format!("{} write {} p4 {}", id, hexs(&target), target_loc));
+                l.push(q.clone());
+                l.push(format!("{} write {} p1 {}", id, hexs(&target), target_loc));
+                l.push(q.clone());
+            }
+        }
+    }
+    l
+}
+
 /// The POSIX / std behaviours the model fixes (DESIGN §6 C12 modelling notes), each determined by
 /// experiment against the real code; also kept as corpus cases `corpus/C12/posix-*.case`.
 fn posix_cases(rng: &mut Rng, id_q: &str, id_w: &str) -> Vec<String> {
@@ -803,8 +900,34 @@ pub fn gen(seed: u64, tier: &str) -> Vec<String> {
             }
         }
     }
+    // B3. query / mutate / same query again, on one instance: every localisation class (component-inserting,
+    //     prefix-inserting, identity, unsupported), every way of addressing the directory
+    {
+        let mut k = 0usize;
+        for g in GAMES.iter().take(5) {
+            for (li, lang) in LANGS.iter().enumerate() {
+                // quick: English (NA) and Japanese per game (FE9, where both are the identity: a rotating
+                // prefix language instead of Japanese)
+                let second = if *g == "FE9" { 3 + (seed as usize) % 4 } else { 2 };
+                if !thorough && !(li == 0 || li == second) {
+                    continue;
+                }
+                for qv in 0..3 {
+                    k += 1;
+                    for (di, d) in ["m", "m/s"].iter().enumerate() {
+                        // quick: one of the two directories per (game, language, addressing), alternating
+                        if !thorough && (k + seed as usize) % 2 != di {
+                            continue;
+                        }
+                        let id = next_id(&mut n);
+                        lines.extend(motif_case(&mut rng, &id, g, lang, d, qv, thorough));
+                    }
+                }
+            }
+        }
+    }
     // C. random histories; games x languages round-robin so that every pair occurs
-    let cases = if thorough { 12000 } else if prop == "C12" { 600 } else { 800 };
+    let cases = if thorough { 12000 } else if prop == "C12" { 480 } else { 560 };
     for i in 0..cases {
         let g = GAMES[(i + seed as usize) % 5];
         let lang = LANGS[((i / 5) + seed as usize) % 8];
